@@ -31,7 +31,9 @@ EXPLANATION = (
     "'tensorlib_changed' (R1) from backend-neutral sources or from attributes refreshed earlier in that method (R2), "
     "sub-objects it reads are subscribed earlier (R3); set_backend replaces state['current'] before the trigger, the "
     "trigger condition depends on name and precision of old and new backend, _setup() is on every normal path (R4); "
-    "events.Callables stores only weakrefs and checks liveness before calling (R5). This is a statement about all "
+    "events.Callables stores only weakrefs and checks liveness before calling (R5); Callables, subscribe and trigger are "
+    "interpreted over a modelled weakref (liveness table): histories of subscriptions, collections (also DURING a dispatch) "
+    "and triggers must call exactly the live subscribers, once, in subscription order, with the arguments (R6). This is a statement about all "
     "switch histories decided without performing a switch. NOT decided: numerical equality after a switch, the jit "
     "cache of opt_jax, user-defined backends/modifiers."
 )
@@ -177,6 +179,7 @@ def run(ctx):
 
     _r4_set_backend(ctx)
     _r5_callables(ctx)
+    _r6_dispatch(ctx)
 
 
 # ----------------------------------------------------------------------
@@ -418,19 +421,16 @@ def _r5_callables(ctx):
     repo = ctx.repo
     r5 = ctx.rule(
         "C11.R5",
-        "EFFECT events.Callables: append stores only weakref.ref(...) / None; __call__ invokes a bound callback only inside a "
-        "liveness test of its receiver; dead receivers are flushed; subscribe registers through Callables.append",
-        "EFFECT", floor=4,
+        "EFFECT events.Callables.append: what is stored in the registry is made of weak references (weakref.*) and None only -- a "
+        "strong reference would keep every model ever built alive and refreshed at every switch (what is CALLED is decided by R6)",
+        "EFFECT", floor=1,
     )
     cal = repo.cls(EV, "Callables")
     app = cal.methods.get("append")
-    call = cal.methods.get("__call__")
-    flush = cal.methods.get("_flush")
-    if not (app and call and flush):
-        ctx.unrecognised(r5, cal, "Callables", "append/__call__/_flush not all present")
+    if not app:
+        ctx.unrecognised(r5, cal, "Callables", "append not present")
         return
-    for f in (app, call, flush):
-        ctx.touch(f)
+    ctx.touch(app)
     # append: what reaches self._callbacks.append(...)
     deps = Deps(app.node)
     stores = [c for c in A.calls_in(app.node) if A.call_attr(c) == "append" and (A.dotted(c.func.value) or "").startswith("self.")]
@@ -448,7 +448,7 @@ def _r5_callables(ctx):
             for leaf in (v.elts if isinstance(v, ast.Tuple) else [v]):
                 if isinstance(leaf, ast.Constant) and leaf.value is None:
                     continue
-                if isinstance(leaf, ast.Call) and (A.call_name(leaf) or "").endswith("ref") and "weakref" in (A.call_name(leaf) or ""):
+                if isinstance(leaf, ast.Call) and (A.call_name(leaf) or "").split(".")[0] == "weakref":
                     continue
                 bad.append(leaf)
         if bad:
@@ -456,58 +456,6 @@ def _r5_callables(ctx):
                          expected="weakref.ref(...) / None", found=A.short(bad[0], 60), node=s)
         else:
             ctx.holds(r5, f"{EV}::Callables.append", "stores (weakref, weakref|None) only")
-    # __call__: invocation of deref'd callback with receiver only under `recv is not None`
-    pm = A.parent_map(call.node)
-    n_calls = 0
-    for c in A.calls_in(call.node):
-        if isinstance(c.func, ast.Call):  # func()(...)
-            n_calls += 1
-            if c.args and isinstance(c.args[0], ast.Name):
-                recv = c.args[0].id
-                guard = A.enclosing(c, pm, ast.If)
-                okg = False
-                while guard is not None:
-                    t = guard.test
-                    if isinstance(t, ast.Compare) and isinstance(t.left, ast.Name) and t.left.id == recv and len(t.ops) == 1 and isinstance(t.ops[0], ast.IsNot) and A.const_value(t.comparators[0]) is None:
-                        st = A.stmt_of(c, pm)
-                        # must be in the true branch
-                        okg = _in_body(guard, c)
-                        break
-                    guard = A.enclosing(guard, pm, ast.If)
-                if okg:
-                    ctx.holds(r5, f"{EV}::Callables.__call__: {A.short(c, 50)}", "under liveness test of the receiver")
-                else:
-                    ctx.violated(r5, call, c, "a bound callback is invoked without testing that its (weakly referenced) receiver is still alive: a garbage-collected model breaks the next switch",
-                                 expected=f"if {recv} is not None: ...", node=c)
-            else:
-                ctx.holds(r5, f"{EV}::Callables.__call__: {A.short(c, 50)}", "plain function callback")
-    if n_calls == 0:
-        ctx.unrecognised(r5, call, "__call__", "no callback invocation of the form func()(...) found")
-    # flush drops dead
-    has_filter = any(isinstance(n, ast.Continue) for n in ast.walk(flush.node)) or any(isinstance(n, (ast.ListComp,)) for n in ast.walk(flush.node))
-    reassigns = any(isinstance(n, ast.Assign) and any(A.dotted(t) == "self._callbacks" for t in n.targets) for n in ast.walk(flush.node))
-    if has_filter and reassigns:
-        ctx.holds(r5, f"{EV}::Callables._flush", "filters dead receivers and replaces the list")
-    else:
-        ctx.violated(r5, flush, "_flush", "dead callbacks are never dropped from the registry", node=flush.node)
-    flushed = any(A.call_attr(c) == "_flush" for c in A.calls_in(call.node))
-    if flushed:
-        ctx.holds(r5, f"{EV}::Callables.__call__ flushes after dispatch")
-    else:
-        ctx.violated(r5, call, "__call__", "dispatch does not flush dead callbacks", node=call.node)
-    # subscribe goes through append of a Callables
-    sub = repo.func(EV, "subscribe")
-    ctx.touch(sub)
-    okk = False
-    for c in A.calls_in(sub.node):
-        if A.call_attr(c) == "append" and isinstance(c.func.value, ast.Call) and A.call_attr(c.func.value) == "setdefault":
-            sd = c.func.value
-            if len(sd.args) == 2 and isinstance(sd.args[1], ast.Call) and A.call_attr(sd.args[1]) == "Callables":
-                okk = True
-    if okk:
-        ctx.holds(r5, f"{EV}::subscribe", "registers via Callables().append")
-    else:
-        ctx.unrecognised(r5, sub, "subscribe", "registration does not go through Callables.append")
 
 
 def _in_body(ifnode, node):
@@ -516,3 +464,168 @@ def _in_body(ifnode, node):
             if n is node:
                 return True
     return False
+
+
+def _r6_dispatch(ctx):
+    """events.Callables / subscribe / trigger interpreted over a model of weakref (a liveness table the scenario
+    controls): which subscribers are called, with what, in which order, across histories."""
+    from ..alg import NotHandled, Obj, Poly, PyFunc, RaisedInFragment, Undecided
+    from ..objmodel import Instance, World
+    repo = ctx.repo
+    r6 = ctx.rule(
+        "C11.R6",
+        "DISPATCH (interpreted): over histories of subscribe / receiver collected / trigger -- also a receiver collected by an "
+        "earlier callback of the same dispatch -- every live subscriber (bound methods and plain functions) is called exactly "
+        "once per trigger, in subscription order, with the trigger's arguments; a collected receiver is never called and never "
+        "makes a dispatch fail, now or at the next switch; disabled and unknown events call nothing",
+        "DISPATCH", floor=6,
+    )
+    cal = repo.cls(EV, "Callables")
+    mod = repo.module(EV)
+    for m in cal.methods.values():
+        ctx.touch(m)
+
+    def scenario():
+        alive, log, hooks = {}, [], {}
+
+        def ref(a, k):
+            t = a[0]
+            return PyFunc(lambda a2, k2: t if alive.get(id(t), True) else None, "weakref")
+
+        def rec(name, bound):
+            def f(a, k):
+                if bound and not (a and isinstance(a[0], Obj)):
+                    log.append((name, "<no receiver>"))
+                    return None
+                recv = a[0] if bound else None
+                if recv is not None and not alive.get(id(recv), True):
+                    log.append((name, "<collected receiver>"))
+                    return None
+                log.append((name, recv.name if recv is not None else None, tuple(str(x) for x in (a[1:] if bound else a)), tuple(sorted((kk, str(v)) for kk, v in k.items()))))
+                if name in hooks:
+                    hooks[name]()
+                return None
+            return PyFunc(f, name)
+
+        def method(name, recv):
+            fobj = rec(name, True)
+            return Obj(f"bound method {name}", {"__func__": fobj, "__self__": recv, "__call__": PyFunc(lambda a, k: fobj.f([recv] + list(a), k), name)}, closed=True)
+
+        def weak_method(a, k):
+            bm = a[0]
+            if not (isinstance(bm, Obj) and "__self__" in bm.attrs):
+                raise RaisedInFragment("TypeError")
+            return PyFunc(lambda a2, k2: bm if alive.get(id(bm.attrs["__self__"]), True) else None, "WeakMethod")
+
+        def function(name):
+            return Obj(f"function {name}", {"__call__": rec(name, False)}, closed=True)
+
+        w = World({"ref": ref, "WeakMethod": weak_method, "cast": lambda a, k: a[1], "wraps": lambda a, k: PyFunc(lambda a2, k2: a2[0], "wraps")},
+                  module_env={"__events": {}, "__disabled_events": set(), "weakref": Obj("weakref"), "noop": PyFunc(lambda a, k: None, "noop")})
+        for st in mod.tree.body:  # other module-level names (type variables, __all__ ...) are opaque objects
+            for t in (st.targets if isinstance(st, ast.Assign) else [st.target] if isinstance(st, ast.AnnAssign) else []):
+                if isinstance(t, ast.Name) and t.id not in w.module_env:
+                    w.module_env[t.id] = Obj(t.id)
+        w.add_class(cal)
+        for q, f in mod.funcs.items():
+            if "." not in q and q != "noop":
+                w.add_func(f)
+        return w, alive, log, hooks, method, function
+
+    def entry(name, recv, args=("x",), kw=(("key", "y"),)):
+        return (name, recv, tuple(args), tuple(kw))
+
+    X, Y = Poly.atom("x"), Poly.atom("y")
+    errs = (Undecided, KeyError, TypeError, ValueError, IndexError, AttributeError)
+
+    def judge(label, got, want, where):
+        if got == want:
+            ctx.holds(r6, f"{EV}::{label}", f"{len(want)} call(s): " + ", ".join(str(g[0]) for g in want))
+        else:
+            ctx.violated(r6, where, label, "the subscribers called by the dispatch are not exactly the live ones, once each, in subscription order, with the trigger's arguments",
+                         expected=str([(g[0], g[1]) for g in want]), found=str([(g[0], g[1]) for g in got])[:300])
+
+    call_m = cal.methods.get("__call__") or cal
+    # ---- history 1: a receiver is collected before the dispatch; then another one; three dispatches
+    try:
+        w, alive, log, hooks, method, function = scenario()
+        Ar, Br, Cr = Obj("A"), Obj("B"), Obj("C")
+        cb = w.new(cal, [], {})
+        for c in (method("mA", Ar), function("f"), method("mB", Br), method("mC", Cr)):
+            w.call_method(cb, "append", [c])
+        w.call_instance(cb, [X], {"key": Y})
+        judge("Callables: 4 subscribers, all alive", list(log), [entry("mA", "A"), entry("f", None), entry("mB", "B"), entry("mC", "C")], call_m)
+        del log[:]
+        alive[id(Br)] = False
+        w.call_instance(cb, [X], {"key": Y})
+        judge("Callables: third subscriber collected before the dispatch", list(log), [entry("mA", "A"), entry("f", None), entry("mC", "C")], call_m)
+        del log[:]
+        alive[id(Ar)] = False
+        w.call_instance(cb, [X], {"key": Y})
+        judge("Callables: first subscriber collected after an earlier dispatch", list(log), [entry("f", None), entry("mC", "C")], call_m)
+    except RaisedInFragment as e:
+        ctx.violated(r6, call_m, "Callables dispatch after a receiver was collected", f"the dispatch raises {e.exc_name}: a collected model breaks the next backend switch", expected="live subscribers called, dead ones skipped")
+    except errs as e:
+        ctx.unrecognised(r6, cal, "Callables history 1", f"not interpretable: {type(e).__name__}: {e}")
+    # ---- history 2: an EARLIER callback of the same dispatch makes a later receiver go away
+    try:
+        w, alive, log, hooks, method, function = scenario()
+        Ar, Br, Cr = Obj("A"), Obj("B"), Obj("C")
+        cb = w.new(cal, [], {})
+        for c in (method("mA", Ar), method("mB", Br), function("f"), method("mC", Cr)):
+            w.call_method(cb, "append", [c])
+        hooks["mA"] = lambda: alive.__setitem__(id(Cr), False)
+        w.call_instance(cb, [X], {"key": Y})
+        judge("Callables: the first callback drops the last reference to the fourth subscriber", list(log), [entry("mA", "A"), entry("mB", "B"), entry("f", None)], call_m)
+        del log[:]
+        hooks.clear()
+        w.call_instance(cb, [X], {"key": Y})
+        judge("Callables: the dispatch after that", list(log), [entry("mA", "A"), entry("mB", "B"), entry("f", None)], call_m)
+    except RaisedInFragment as e:
+        ctx.violated(r6, call_m, "Callables dispatch while a receiver is collected by an earlier callback", f"the dispatch raises {e.exc_name}", expected="the collected subscriber is skipped")
+    except errs as e:
+        ctx.unrecognised(r6, cal, "Callables history 2", f"not interpretable: {type(e).__name__}: {e}")
+    # ---- history 3: module level subscribe / trigger / disable / enable
+    sub_f, trg_f = mod.funcs.get("subscribe"), mod.funcs.get("trigger")
+    if sub_f is None or trg_f is None:
+        ctx.unrecognised(r6, mod, "events", "subscribe/trigger not found")
+        return
+    ctx.touch(sub_f)
+    ctx.touch(trg_f)
+    try:
+        w, alive, log, hooks, method, function = scenario()
+        Ar, Br = Obj("A"), Obj("B")
+
+        def subscribe(ev, c):
+            deco = w.call_func(sub_f, [ev])
+            if isinstance(deco, PyFunc):
+                return deco.f([c], {})
+            return deco.interp.call_function(deco.node, [c], {})
+
+        def trigger(ev, *args):
+            t = w.call_func(trg_f, [ev])
+            if isinstance(t, PyFunc):
+                return t.f(list(args), {})
+            return w.call_instance(t, list(args), {})
+
+        subscribe("tensorlib_changed", method("mA", Ar))
+        subscribe("other", function("g"))
+        subscribe("tensorlib_changed", method("mB", Br))
+        subscribe("tensorlib_changed", function("f"))
+        trigger("tensorlib_changed", X)
+        judge("subscribe x4 (two events), trigger one event", list(log), [entry("mA", "A", ("x",), ()), entry("mB", "B", ("x",), ()), entry("f", None, ("x",), ())], trg_f)
+        del log[:]
+        trigger("never_subscribed", X)
+        judge("trigger of an event nobody subscribed to", list(log), [], trg_f)
+        if "disable" in mod.funcs and "enable" in mod.funcs:
+            w.call_func(mod.funcs["disable"], ["tensorlib_changed"])
+            trigger("tensorlib_changed", X)
+            judge("trigger of a disabled event", list(log), [], trg_f)
+            w.call_func(mod.funcs["enable"], ["tensorlib_changed"])
+            alive[id(Ar)] = False
+            trigger("tensorlib_changed", X)
+            judge("trigger after enable, first subscriber collected meanwhile", list(log), [entry("mB", "B", ("x",), ()), entry("f", None, ("x",), ())], trg_f)
+    except RaisedInFragment as e:
+        ctx.violated(r6, trg_f, "subscribe/trigger history", f"raises {e.exc_name}", expected="live subscribers of that event called in order")
+    except errs as e:
+        ctx.unrecognised(r6, mod, "events history 3", f"not interpretable: {type(e).__name__}: {e}")
